@@ -65,7 +65,7 @@ CRASH = {
  'variable-then-function': ('F is 9001\nF takes X\ngive back X\n\nsay F\n', {'n1': {}}),
  'array-function-arg': ('F takes L\nRoll L into H\ngive back H\n\nsay F taking 9001\nRock Arr\nsay F taking Arr\n', {'n1': {}}),
 }
-BOUNDS = {'generated programs': 'kind x statement matrix: X of every kind {undefined name, mysterious, null, boolean, number, string, array with list and dictionary part, empty array, function} x 51 one-operand statement / expression forms + 38 two-operand forms with the other operand of kind {number, string, array, null} (1827 programs); numbers any double (an operand used as index / repeat count: <= 3, >= 6e17 or NaN -- values in between only allocate), strings any opaque string and, in a second run, a bounded string of 0..=1 (thorough 2) symbolic characters incl. multi-byte ones; poetic number literals of 1..=40 (thorough 120) words with 4 dot placements',
+BOUNDS = {'generated programs': 'kind x statement matrix: X of every kind {undefined name, mysterious, null, boolean, number, string, array with list and dictionary part, empty array, function} x 51 one-operand statement / expression forms + 38 two-operand forms with the other operand of kind {number, string, array, null} (1827 programs); numbers any double (an operand used as index / repeat count: <= 3, >= 6e17 or NaN -- values in between only allocate), strings any opaque string and, in a second run, a bounded string of 0..=1 (thorough 2) symbolic characters incl. multi-byte ones, and in a third run 10 long texts (100 ASCII bytes; 2-, 3- and 4-byte characters x every alignment, 80+ bytes); poetic number literals of 1..=40 (thorough 120) words with 4 dot placements',
           'programs': '%d crash-oriented templates + the templates of C04 / C05 / C08 (%d), each parsed by the real parser; every placeholder is any double / any string' % (len(CRASH), len(C04.TEMPLATES) + len(C05.T) + len(C08.T)),
           'edges': 'panic, debug assertion, unreachable!, unimplemented!, MIR overflow / bounds asserts, RefCell double borrow, unwrap on None / Err, unchecked_unwrap on None / Err, unreachable_unchecked, and rendering (Display) of every runtime error produced',
           'inventory': 'every crash site of the interpreter modules in the MIR is listed; the function containing it must have been executed by some harness path, otherwise the check is inconclusive'}
@@ -148,6 +148,9 @@ def h_kind(vm, mir, chunk, bounded):
             holes[k] = x = num_hole(vm, k)
             # the second operand may be an index / repeat count: values whose only effect is a huge allocation are outside the property (resource bounds)
             if k == 'n3' or spec[k].get('index'): vm.assume(z3.Or(z3.fpLEQ(x, z3.FPVal(3.0, F64)), z3.fpGEQ(x, z3.FPVal(6e17, F64)), z3.fpIsNaN(x)))
+        elif bounded == 'long':
+            # long multi-byte texts: every byte offset up to 80 lies inside a character of at least one layout (cuts, elisions, padding)
+            holes[k] = bstr_from_py(LONG_TEXTS[vm.fork(len(LONG_TEXTS), note=k)]) if k == 's1' else bstr_from_py('a,')
         elif bounded:
             if k == 's1': holes[k] = sym_short_string(vm, k, 1 if getattr(vm, 'tier', 'quick') == 'quick' else 2)
             else: holes[k] = bstr_from_py(['', '1', 'a,'][vm.fork(3, note=k)])
@@ -165,10 +168,17 @@ def h_kind(vm, mir, chunk, bounded):
     res = conc(vm, res)
     if res.variant == 1:
         from ..std_fmt import display_to_string
-        display_to_string(vm, 'RuntimeError', R(res.fields[0]))
+        try: display_to_string(vm, 'RuntimeError', R(res.fields[0]))
+        except Unmodelled as e:
+            if bounded or 'opaque symbolic string' not in str(e): raise
+            vm.witness = {'run-done', 'deferred-to-bounded-strings'}       # character-level work on the rendered value: decided by the bounded / long string jobs of the same shape
+            return None
         vm.witness = {'run-done', 'error-rendered'}
     else: vm.witness = {'run-done'}
     return None
+
+
+LONG_TEXTS = ['x' * 100] + [p + c * n for c, n in (('\u00e9', 40), ('\u212a', 30), ('\U0001F600', 20)) for p in ('', 'x', 'xx', 'xxx')[:len(c.encode()) ]]
 
 
 def jobs(ctx, tier):
@@ -184,6 +194,8 @@ def jobs(ctx, tier):
     withstr = [sh for sh in shapes if any(k.startswith('s') for k in sh[1])]
     for k, ch in enumerate(chunks(withstr, 4)):
         js.append(Job(f'kinds-bounded-strings/{k}', h_kind, (mir, ch, True), witness=['run-done'], fuel=20_000_000, weight=12, str_mode='bounded'))
+    for k, ch in enumerate(chunks(withstr, 12)):
+        js.append(Job(f'kinds-long-strings/{k}', h_kind, (mir, ch, 'long'), witness=['run-done'], fuel=40_000_000, weight=12, str_mode='bounded'))
     return js
 
 
